@@ -79,6 +79,60 @@ R9_CONTROL_BAD = {"bad_add", "bad_scale", "bad_index", "bad_abs", "bad_dependent
 R9_CONTROL_GOOD = {"good_add", "good_scale", "good_index", "good_loop", "good_dependent", "good_narrow", "good_flag", "good_flag_int", "good_guard_helper"}
 
 
+CAL_IDS = ("iso8601", "gregory", "japanese", "buddhist", "roc", "coptic", "ethiopic", "ethioaa", "hebrew", "indian", "persian",
+           "chinese", "dangi", "islamic", "islamic-civil", "islamic-rgsa", "islamic-tbla", "islamic-umalqura")
+
+
+def month_code_guard(run, fx, rs):
+    rule = "R8.month-code-guard"
+    run.rule(rule, "MonthCode::validate is the guard behind `unreachable!` in iso_days_in_month and behind the month arithmetic of "
+                   "the field resolution: folded on every syntactically possible code (M00..M99, with and without L) for "
+                   "every calendar identifier, it must accept only codes whose number is in 1..=13, and for the ISO calendar "
+                   "only M01..M12")
+    f = rs.fn1("types::MonthCode::validate")
+    if f is None:
+        run.undecided.append({"rule": rule, "key": "validate", "gone": ["MonthCode::validate"]})
+        return
+    MC = "temporal_rs::builtins::core::calendar::types::MonthCode"
+    decided = und = 0
+    bad = {}
+    for ident in CAL_IDS:
+        for num in range(100):
+            for leap in (False, True):
+                code = "M%02d%s" % (num, "L" if leap else "")
+                ev = H.Evaluator(fx)
+                ev.inline = lambda p: p.startswith("temporal_rs::")
+                ev.stubs["Calendar::identifier"] = lambda args, ident=ident: ident
+                ev.stubs["Calendar::is_iso"] = lambda args, ident=ident: ident == "iso8601"
+                ev.lossy = []
+                try:
+                    r = ev.call_fn(f, [H.S(MC, (("0", code),)), H.Sym("param", ("calendar",))])
+                except (H.Panic, H.Budget):
+                    und += 1
+                    continue
+                if ev.lossy or not (is_err(r) or (isinstance(r, H.V) and r.path == H.OK)):
+                    und += 1
+                    continue
+                decided += 1
+                if isinstance(r, H.V) and r.path == H.OK:
+                    if not 1 <= num <= 13 or (ident == "iso8601" and (leap or num > 12)):
+                        bad.setdefault(ident if ident == "iso8601" or 1 <= num <= 13 else "*", []).append(code)
+    run.analysed["month_code_folds_decided"] = decided
+    run.analysed["month_code_folds_undecided"] = und
+    run.exhaustive_tables.append("MonthCode::validate: 200 codes x %d calendar identifiers (%d decided)" % (len(CAL_IDS), decided))
+    if decided == 0:
+        run.undecided.append({"rule": rule, "key": "validate", "why": "MonthCode::validate does not fold on concrete codes"})
+        run.ok(rule, "validate", "does not fold: not decided", f.loc, nontrivial=False)
+        return
+    for ident, codes in sorted(bad.items()):
+        codes = sorted(set(codes))
+        run.bad(rule, "validate/%s" % ident, "MonthCode::validate accepts %s for %s: the month number reaches iso_days_in_month / "
+                                            "the month arithmetic outside 1..=12(13) (`unreachable!` / wrong month)" %
+                (", ".join(codes[:6]), "the ISO calendar" if ident == "iso8601" else "every calendar"), f.loc)
+    if not bad:
+        run.ok(rule, "validate", "accepted codes have numbers in 1..=13, ISO only M01..M12 (%d folds decided, %d not)" % (decided, und), f.loc)
+
+
 def digit_unwraps(run, fx):
     rule = "R8.digit-unwrap-guard"
     run.rule(rule, "an unwrapped `char::to_digit(r)` is preceded, in the function that unwraps it or its callees, by a test that "
@@ -407,6 +461,7 @@ def main(tier):
                 why = "the guard this entry relies on no longer holds: " + gwhy
         run.check(ok, rule, key, "reviewed: " + ent["reason"][:150], "%s in %s: %s" % (kind, f.name, why), loc)
     digit_unwraps(run, fx)
+    month_code_guard(run, fx, rs)
     r9(run, fx)
     stale = [k for k in review if k not in used and not any(k == "%s/%s#%d" % (f.path, kd, o) for f, kd, o, _, _ in inv)]
     run.analysed["review_entries"] = len(review)
